@@ -31,6 +31,7 @@
  */
 
 #include <stdint.h>
+#include <string.h>
 #include "bls12_381/fq.hpp"
 #include "bls12_381/fq2.hpp"
 #include "bls12_381/curve.hpp"
@@ -127,6 +128,17 @@ namespace embedded_pairing::bls12_381 {
         }
 
         if (checked) {
+            /*
+             * Accept only the encoding that encode() produces for this point:
+             * read_big_endian silently reduces a coordinate that is not below
+             * the modulus and ignores the flag bits of every coordinate but
+             * the first, so compare against the canonical encoding.
+             */
+            Encoding<Affine, compressed> canonical;
+            canonical.encode(g);
+            if (memcmp(canonical.data, this->data, sizeof(this->data)) != 0) {
+                return false;
+            }
             if constexpr(!compressed) {
                 if (!g.is_on_curve()) {
                     return false;
